@@ -34,7 +34,7 @@ run() { # name, expected exit status, expected substring of the replayed predica
 
 git -C /repo worktree add -q --detach "$W" HEAD || exit 2
 trap 'git -C /repo worktree remove --force "$W"; cd "$here" && ./check C17 >/dev/null 2>&1' EXIT
-want=${*:-fill layout one-parent override-dup include-type by-position one-sided loop-index base}
+want=${*:-fill layout one-parent override-dup include-type by-position one-sided schema-dup schema-reorder loop-index base}
 for m in $want; do
 case $m in
 fill)  # fillValueSlice: ignore defaults
@@ -64,6 +64,15 @@ by-position)  # cross-type comparison by position instead of by name
 one-sided)  # only the receiver's type has to leave the type out (asymmetric Equals)
   edit types/objectvalue.go "s.replace('''	if equalityIncludesType(o.typ) || equalityIncludesType(ov.typ) {''', '''	if equalityIncludesType(o.typ) {''')"
   run "mutant cross-type equality looks at the receiver's flag only" 1 'equality-wrong' ;;
+schema-dup)  # undo 54779d2: `equality` listed twice in TypeObjectInitHash
+  edit types/objecttype.go "s.replace('''	NewStructElement(newOptionalType3(keySerialization), TypeMemberNames),''', '''	NewStructElement(newOptionalType3(keyEquality), TypeEquality),
+	NewStructElement(newOptionalType3(keySerialization), TypeMemberNames),''')"
+  run "mutant schema lists equality twice (broken table obligation + failing input)" 1 'schema-admitted-rejected' ;;
+schema-reorder)  # harmless: members of the schema in another order
+  edit types/objecttype.go "s.replace('''	NewStructElement(newOptionalType3(keyEquality), TypeEquality),
+	NewStructElement(newOptionalType3(keyEqualityIncludeType), DefaultBooleanType()),''', '''	NewStructElement(newOptionalType3(keyEqualityIncludeType), DefaultBooleanType()),
+	NewStructElement(newOptionalType3(keyEquality), TypeEquality),''')"
+  run "harmless rewrite: schema members reordered" 0 '' ;;
 loop-index)  # harmless: iterate attributes by index
   edit types/objectvalue.go "s.replace('''	for i, v := range values {
 		attr := at[i]''', '''	for i := 0; i < len(values); i++ {
